@@ -58,6 +58,40 @@ func init() {
 		if r.Chance(0.6) {
 			c.Graceful = true // terminating pods linger: scale-in and rollout overlap
 		}
+		if r.Chance(0.35) {
+			// two sets reconciled by two workers at once: nothing of one set's pass may
+			// leak into the other's
+			if len(c.Sets) == 1 {
+				sc := c.Sets[0]
+				sc.Name = "db"
+				sc.Labels = map[string]string{"app": "db"}
+				c.Sets = append(c.Sets, sc)
+			}
+			if c.Workers < 2 {
+				c.Workers = 2
+			}
+			c.Weights["worker"] = 45
+		}
+	}, Tail: func(r *PRNG, s *Sim) []Step {
+		// two workers, two sets, both with a pod to scale in; the first worker is parked
+		// in the middle of its pass (at the identity repair of a pod that lost its
+		// pod-name label) while the second runs a whole pass of the other set
+		if len(s.Cfg.Sets) < 2 || s.Cfg.Workers < 2 || !r.Chance(0.7) {
+			return nil
+		}
+		out := []Step{{K: "settle"}}
+		for i := 0; i < 2; i++ {
+			set, _ := s.getSet(i)
+			if set == nil || set.DeletionTimestamp != nil || set.Annotations[annPaused] == "true" {
+				return nil
+			}
+			d := Desired(specReplicas(set), ModelSlots(set.Annotations))
+			if len(d) < 2 {
+				return nil
+			}
+			out = append(out, Step{K: "podnoid", S: sprintf("%s-%d", set.Name, d[0])}, Step{K: "scalein", A: i, B: len(d) - 1})
+		}
+		return append(out, Step{K: "deliverall"}, Step{K: "worker"}, Step{K: "worker"}, Step{K: "relto", A: 0, B: 1}, Step{K: "relto", A: 1, B: 9}, Step{K: "finish"})
 	}}
 
 	profiles["parallel"] = &Profile{Name: "parallel", Tweak: func(r *PRNG, c *Config) {
@@ -70,6 +104,7 @@ func init() {
 		c.Weights["replicas"] = 8
 		c.Weights["mkpod"] = 5
 		c.Weights["pvcterm"] = 3
+		c.Weights["pause"] = 4
 		if r.Chance(0.4) {
 			for i := range c.Sets {
 				if c.Sets[i].Claims == 0 {
@@ -77,6 +112,15 @@ func init() {
 				}
 			}
 		}
+	}, Tail: func(r *PRNG, s *Sim) []Step {
+		// a pause edit reaches the cache in the middle of a pass that has two pods to
+		// scale in: the pass was decided before the pause and completes as decided
+		if !r.Chance(0.35) {
+			return nil
+		}
+		return []Step{{K: "pause", A: 0, B: 0}, {K: "replicas", A: 0, B: 3 + r.Intn(2)}, {K: "settle"},
+			{K: "scalein", A: 0, B: r.Intn(4)}, {K: "scalein", A: 0, B: r.Intn(4)}, {K: "deliverall"}, {K: "worker"},
+			{K: "relto", A: 0, B: 4}, {K: "pause", A: 0, B: 1}, {K: "deliver", A: 1}, {K: "deliver", A: 1}, {K: "finish"}}
 	}}
 
 	// claims: templates, claim cache lag, lister faults
@@ -254,6 +298,29 @@ func init() {
 		c.Weights["crash"] = 6
 		c.Weights["advance"] = 10
 		c.Weights["mkrev"] = 3 // orphan / marker revisions: the adoption and label-sync calls get faults too
+	}, Tail: func(r *PRNG, s *Sim) []Step {
+		// the last events before everything goes quiet arrive while a reconcile that is
+		// the retry of a failed one is in flight: a pod is removed, the reconcile that
+		// should replace it fails at its first call, the retry runs part of the way,
+		// the kubelet reports on the pods in the meantime, the retry completes
+		x := r.Intn(10)
+		if x >= 7 {
+			return nil
+		}
+		a := r.Intn(8)
+		if x >= 4 {
+			// or: a pod loses its pod-name label; the reconcile that repairs it is
+			// parked right before the pod update while the kubelet reports on the pod
+			// (the update then conflicts and is retried on the refreshed copy)
+			return []Step{{K: "settle"}, {K: "podnoid", A: a}, {K: "deliverall"}, {K: "worker"}, {K: "relto", A: 0, B: 1},
+				{K: "kube", A: a, B: 2}, {K: "deliverall"}, {K: "finish"}}
+		}
+		// the retry (which has nothing to write) is parked at its first call, holding
+		// the set as it was; the user scales the set out by one (the last edit of the
+		// run); the retry completes on its older snapshot
+		return []Step{{K: "settle"}, {K: "touch", A: 0}, {K: "deliverall"},
+			{K: "worker"}, {K: "release", A: 0, B: FBefore500}, {K: "advance", A: 1000}, {K: "worker"},
+			{K: "scaleout", A: 0, B: 1}, {K: "deliverall"}, {K: "finish"}}
 	}}
 
 	// rolling updates (partitions, failed pods, several revisions in flight) with
@@ -400,6 +467,22 @@ func init() {
 		c.Chaos = r.Range(250, 450)
 	}, Prefix: func(r *PRNG, c *Config) []Step {
 		return []Step{{K: "mkset", A: 0}, {K: "mkpod", A: 0, B: 0, C: ownOtherKind | 3<<2 | 1<<6, D: c.Sets[0].Template}, {K: "boot"}}
+	}}
+
+	// statusstreak: the set's pods are all there and Ready, only the status is to be
+	// written, and the status endpoint is down for the whole chaos phase: a long run
+	// of failed reconciles of one key with nothing else happening; when the outage
+	// ends the retry must still be scheduled
+	profiles["statusstreak"] = &Profile{Name: "statusstreak", Tweak: func(r *PRNG, c *Config) {
+		profiles["streak"].Tweak(r, c)
+		c.StatusOutage = true
+		c.Weights = map[string]int{"worker": 30, "release": 120, "advance": 30, "deliver": 10}
+	}, Prefix: func(r *PRNG, c *Config) []Step {
+		out := []Step{{K: "mkset", A: 0}}
+		for o := int32(0); o < c.Sets[0].Replicas; o++ {
+			out = append(out, Step{K: "mkpod", A: 0, B: int(o), C: ownThis | 3<<2, D: c.Sets[0].Template})
+		}
+		return append(out, Step{K: "boot"})
 	}}
 
 	// bigint: template edits that include an integer above 2^53 (C08 only; the
